@@ -615,8 +615,40 @@ def step_csv(st, ctx, work, si):
     glob_read = tfmt if st["tf_mode"] == "global" else st["other_fmt"]
     _set_formats(glob_read, tfmt)
     ctx.monitor("csv.roundtrip")
+    hk = (len(st["pts"]) + E * 3 + N * 5 + st["h"] + si + int(st["t_ms"][0] // 1000)) % 6
+    if hk == 0:
+        # error path first: GPX exports that are rejected (a file name that does not end in .gpx; one file per track
+        # asked for on something that is not a directory); what they raise is not judged -- the CSV round trip that
+        # follows in the same process is
+        from tracklib.core.track_collection import TrackCollection
+        M.call(TrackWriter.writeToGpx, track, os.path.join(work, "c13_rejected_%d.txt" % si), False, True)
+        M.call(TrackWriter.writeToGpx, TrackCollection([track]), os.path.join(work, "c13_no_such_dir_%d" % si, "x"),
+               False, False)
+        ctx.count("rejected_gpx_export_before_csv_round_trip")
+    if hk == 2:
+        # error path first: an attempt to read a file that cannot be parsed (text in a coordinate column), declared
+        # with ANOTHER time format; it is rejected.  The user's formats (set above) are what the round trip relies on.
+        other = "4Y-2M-2D 2h:2m:2s" if tfmt != "4Y-2M-2D 2h:2m:2s" else "2D/2M/4Y 2h:2m:2s"
+        badp = os.path.join(work, "c13_unreadable_%d_%d.csv" % (os.getpid(), si))
+        with open(badp, "w") as fbad:
+            fbad.write("1,2,3,2020-01-01 00:00:00\nfoo,bar,baz,2020-01-01 00:00:01\n")
+        bf = M.call(TrackFormat, {"ext": "CSV", "id_E": 0, "id_N": 1, "id_U": 2, "id_T": 3, "separator": ",",
+                                  "header": 0, "srid": "ENU", "time_fmt": other})
+        if not M.is_raised(bf):
+            M.call(TrackReader.readFromFile, badp, bf)
+        _rm(badp)
+        ctx.count("rejected_read_before_csv_round_trip")
+    files_dir = None
     try:
-        if st["wapi"] == "writeToFile":
+        if st["wapi"] == "writeToFile" and hk == 1:
+            # alternative entry point: one CSV file per track of a collection
+            from tracklib.core.track_collection import TrackCollection
+            files_dir = os.path.join(work, "c13_files_%d_%d" % (os.getpid(), si))
+            os.makedirs(files_dir, exist_ok=True)
+            w = M.call(TrackWriter.writeToFiles, TrackCollection([track]), files_dir, "csv", E, N, U, T, sep, st["h"])
+            path = os.path.join(files_dir, "track_output_0.csv")
+            ctx.count("writeToFiles_entry_point")
+        elif st["wapi"] == "writeToFile":
             w = M.call(TrackWriter.writeToFile, track, path, E, N, U, T, sep, st["h"])
         else:
             wd = dict(fd)
@@ -650,6 +682,8 @@ def step_csv(st, ctx, work, si):
         return mm
     finally:
         _rm(path)
+        if files_dir:
+            shutil.rmtree(files_dir, ignore_errors=True)
 
 
 def step_gpx(st, ctx, work, si):
